@@ -6,6 +6,19 @@ BASELINE = ("cd /repo && cargo nextest run --workspace --no-fail-fast --tool-con
             "--profile pb --test-threads 8 --offline")
 TECH = "contract-based deductive verification: Verus (Z3) on functions of /repo extracted mechanically on every run"
 CLAIMED = {
+ "C19": dict(
+   text=("Partial claim — the builder-API -> schema half. Verus discharges, on the real text of all 17 registration methods of "
+         "Blueprint, of RoutingModifiers (prefix/domain/nest/routes), of every Registered* modifier (error_handler, lifecycle, "
+         "cloning, lints, default_if_missing, ...), of the conversion functions and of the schema's own From impls, that each call "
+         "appends exactly one component built from its argument and the caller's location at the end, changes nothing else, returns a "
+         "handle to exactly that component; that a modifier changes exactly the named field of exactly that component (the "
+         "`unreachable!`s in the accessors are discharged from the handle invariant); that nesting stores the child whole with exactly "
+         "the last prefix/domain; that conversions are name-preserving. #[track_caller] on every method of the location chain is a "
+         "syntactic obligation. persist/load serialise exactly self.schema / wrap exactly what was parsed. Native tests build, persist, "
+         "read back (the way the compiler does) and compare."),
+   note=("NOT decided: the attribute channel (proc-macro -> rustdoc JSON -> darling) — second sentence of C19; serde/RON round trip of "
+         "the schema types is an assumed axiom (exercised natively); reflection::Sources conversion is an assumed contract."),
+   design="§3/C19"),
  "C10": dict(
    text=("Partial claim — the idempotence and `--check` clauses. The file system is a read-only snapshot and every primitive that "
          "modifies it carries a protocol precondition (`writes_allowed()`, and for byte writes `the bytes differ from the snapshot`). "
@@ -90,7 +103,6 @@ NA = {
  "C15": "decoding lives in serde/percent-encoding/serde_html_form; pavex part is macro-generated serde glue generic over every Deserialize (DESIGN §3/C15)",
  "C16": "concurrency + liveness over threads/tokio/sockets; neither verifier supports it on this code (DESIGN §3/C16)",
  "C17": "measured: Verus rejects the recursive Type algebra's text (iterator adapters, let-chains, derived recursive eq), Kani does not converge on one concrete shape pair (DESIGN §3/C17)",
- "C19": "not yet built in this tree: planned tier-2 partial claim (API → schema) — see DESIGN §3/C19",
  "C20": "measured: string iterators (str::split, chars().rev().peekable(), IndexSet<char>, syn) — Kani does not converge at 2–5 chars, Verus has no str/iterator reasoning (DESIGN §3/C20)",
 }
 def main():
